@@ -72,6 +72,21 @@ OPTIONS = {
         ("inner", "action-parser", "inner_ok.yaml"),
         ("inner.v", "action-parser-field", "2"),
     ],
+    # list kinds whose items stay strings / are structured, nargs="+" with choices and no type, and every registered
+    # type of jsonargparse.typing that needs no extra package (Decimal is in shape A)
+    "G": [
+        ("cfg", "config", "ok.yaml"),
+        ("la", "list-any", "[1, a]"),
+        ("ols", "optional-list-str", '["a"]'),
+        ("ldc", "list-dataclass", '[{"x": 2}]'),
+        ("np", "nargs-plus-choices", "x"),
+        ("uid", "registered-uuid", "12345678-1234-5678-1234-567812345678"),
+        ("rng", "registered-range", "range(1, 4)"),
+        ("td", "registered-timedelta", "1 day, 1:02:03"),
+        ("cx", "registered-complex", "(1+2j)"),
+        ("by", "registered-bytes", "aGk="),
+        ("pth", "registered-path", "adir/x"),
+    ],
 }
 
 # options that live below subcommands of shape D: (subcommand argv prefix, dest, kind, valid)
@@ -85,10 +100,10 @@ SUB_OPTIONS = {
 }
 
 # well-formed values outside the command line where they differ from the one-item argv text
-DOC_VALID = {"n2": "[1, 2]", "ns": "[1]"}
+DOC_VALID = {"n2": "[1, 2]", "ns": "[1]", "np": "[\"x\"]"}
 
 # a minimal argv that every shape accepts (used as the neutral context: the faulty item is inserted before it)
-BASE_ARGV = {"A": [], "B": [], "C": [], "D": ["s1"], "E": [], "F": ["7"]}
+BASE_ARGV = {"A": [], "B": [], "C": [], "D": ["s1"], "E": [], "F": ["7"], "G": []}
 
 ENV_PREFIX = "APP"  # environment variables are APP_<DEST> / APP_<SUB>__<DEST> (c03.env_cases; guarded by the
 # "every option accepts its well-formed value through every channel" requirement)
@@ -119,6 +134,7 @@ OK_FILES = {
     "D": {"ok.yaml": "t: 5\nsubcommand: s1\n", "sub_ok.yaml": "a: 5\n", "subsub_ok.yaml": "v: 5\n"},
     "E": {"ok.yaml": "src: 5\n"},
     "F": {"ok.yaml": "ch: y\npos: 7\n", "inner_ok.yaml": "v: 5\n"},
+    "G": {"ok.yaml": "la: [5]\n"},
 }
 
 
@@ -257,6 +273,23 @@ def build(shape, eoe, default_config_files=None, subs="same"):
         inner.add_argument("--v", type=int, default=1)
         inner.add_argument("--u", type=str, default="u")
         p.add_argument("--inner", action=ActionParser(parser=inner))
+    elif shape == "G":
+        import datetime
+        import pathlib
+        import uuid
+        from typing import Union  # noqa: F401
+
+        p.add_argument("--cfg", action=ActionConfigFile)
+        p.add_argument("--la", type=List[Any], default=["d"])
+        p.add_argument("--ols", type=Optional[List[str]])
+        p.add_argument("--ldc", type=List[lib.DC])
+        p.add_argument("--np", nargs="+", choices=["x", "y"])
+        p.add_argument("--uid", type=uuid.UUID)
+        p.add_argument("--rng", type=range, default=range(3))
+        p.add_argument("--td", type=datetime.timedelta)
+        p.add_argument("--cx", type=complex)
+        p.add_argument("--by", type=bytes)
+        p.add_argument("--pth", type=pathlib.Path)
     else:
         raise AssertionError(shape)
     return p
